@@ -282,12 +282,13 @@ package utreexo
 //@   loop 1: invariant maxa == len(a.positions) && maxb == len(b.positions)
 //@   loop 1: invariant len(c.positions) == maxa + maxb && len(c.hashes) == maxa + maxb
 //@   loop 1: decreases maxa + maxb - j
-//@   ensures sortedStrict(a.positions) && sortedStrict(b.positions) ==> sortedStrict(c.positions)
-//@   loop 1: paths separate
 //@   loop 1: invariant j <= idxa + idxb
-//@   loop 1: invariant sortedStrict(a.positions) && sortedStrict(b.positions) ==> (forall x in 0..j: forall y in 0..j: x < y ==> c.positions[x] < c.positions[y])
-//@   loop 1: invariant sortedStrict(a.positions) && sortedStrict(b.positions) ==> (forall x in 0..j: forall y in idxa..maxa: c.positions[x] < a.positions[y])
-//@   loop 1: invariant sortedStrict(a.positions) && sortedStrict(b.positions) ==> (forall x in 0..j: forall y in idxb..maxb: c.positions[x] < b.positions[y])
+//   sortedness (thorough tier: the two copy-the-remainder exits are decided by cvc5 only, in about 18 s each)
+//@   thorough ensures sortedStrict(a.positions) && sortedStrict(b.positions) ==> sortedStrict(c.positions)
+//@   thorough loop 1: paths separate
+//@   thorough loop 1: invariant sortedStrict(a.positions) && sortedStrict(b.positions) ==> (forall x in 0..j: forall y in 0..j: x < y ==> c.positions[x] < c.positions[y])
+//@   thorough loop 1: invariant sortedStrict(a.positions) && sortedStrict(b.positions) ==> (forall x in 0..j: forall y in idxa..maxa: c.positions[x] < a.positions[y])
+//@   thorough loop 1: invariant sortedStrict(a.positions) && sortedStrict(b.positions) ==> (forall x in 0..j: forall y in idxb..maxb: c.positions[x] < b.positions[y])
 
 //@ func calculateHashes(numLeaves uint64, delHashes []Hash, proof Proof) (hp hashAndPos, roots []Hash, err error)
 //@   requires delHashes == nil || len(delHashes) == len(proof.Targets)
